@@ -530,13 +530,18 @@ Definition wordNibbles (i : N) (v : N) : list (Z * N) :=
                       (Z.of_N (i * 16 + sq), N.land (N.shiftr v (4 * N.of_nat k)) 15))
       (seq 0 16).
 
-Definition deSerialize (data : list N) : position :=
-  let p0 := mkPos (repeat EMPTY 64) (repeat 0 13) 0 0 true 0%Z 0%Z 0 (-1)%Z 0 (zk_empty zk) 0%Z
-                  (- kV)%Z (- kV)%Z 0%Z 0%Z in
-  let '(p, hash) :=
-    fold_left (fun st i => fold_left deserStep (wordNibbles i (nth (N.to_nat i) data 0)) st)
-              [0; 1; 2; 3] (p0, zk_empty zk) in
-  let flags := nth 4 data 0 in
+(** the 64 pairs of the four board words, in the order the two nested loops visit them *)
+Definition deserPairs (data : list N) : list (Z * N) :=
+  wordNibbles 0 (nth 0 data 0) ++ wordNibbles 1 (nth 1 data 0) ++
+  wordNibbles 2 (nth 2 data 0) ++ wordNibbles 3 (nth 3 data 0).
+
+(** the state before the loops *)
+Definition deserP0 : position :=
+  mkPos (repeat EMPTY 64) (repeat 0 13) 0 0 true 0%Z 0%Z 0 (-1)%Z 0 (zk_empty zk) 0%Z (- kV)%Z (- kV)%Z 0%Z 0%Z.
+
+(** the part after the loops: the flag word and the hash key *)
+Definition deserFinish (st : position * N) (flags : N) : position :=
+  let p := fst st in let hash := snd st in
   let p := set_fullMoveCounter p (Z.of_N (N.land flags 65535)) in
   let flags := N.shiftr flags 16 in
   let p := set_halfMoveClock p (Z.of_N (N.land flags 255)) in
@@ -549,6 +554,9 @@ Definition deSerialize (data : list N) : position :=
   let flags := N.shiftr flags 4 in
   let p := set_whiteMove p (negb (N.land flags 1 =? 0)) in
   set_hashKey p (fullHash p hash).
+
+Definition deSerialize (data : list N) : position :=
+  deserFinish (fold_left deserStep (deserPairs data) (deserP0, zk_empty zk)) (nth 4 data 0).
 
 End WithKeys.
 
